@@ -18,6 +18,9 @@ import (
 func (n *Nodis) Del(keys ...string) int64 {
 	var c int64 = 0
 	_ = n.exec(func(tx *Tx) error {
+		if len(keys) > 1 {
+			tx.lockKeys(keys)
+		}
 		for _, key := range keys {
 			meta := tx.writeKey(key, nil)
 			if !meta.isOk() {
@@ -45,6 +48,9 @@ func (n *Nodis) Unlink(keys ...string) int64 {
 func (n *Nodis) Exists(keys ...string) int64 {
 	var num int64
 	_ = n.exec(func(tx *Tx) error {
+		if len(keys) > 1 {
+			tx.lockKeys(nil, keys...)
+		}
 		for _, key := range keys {
 			meta := tx.readKey(key)
 			if meta.isOk() {
@@ -436,6 +442,7 @@ func (n *Nodis) PTTL(key string) int64 {
 // Rename a key
 func (n *Nodis) Rename(key, dstKey string) error {
 	return n.exec(func(tx *Tx) error {
+		tx.lockKeys([]string{key, dstKey})
 		meta := tx.writeKey(key, nil)
 		if !meta.isOk() {
 			return errors.New("key not exists")
@@ -461,6 +468,7 @@ func (n *Nodis) Rename(key, dstKey string) error {
 // RenameNX a key
 func (n *Nodis) RenameNX(key, dstKey string) error {
 	return n.exec(func(tx *Tx) error {
+		tx.lockKeys([]string{key, dstKey})
 		dstMeta := tx.writeKey(dstKey, nil)
 		if dstMeta.isOk() {
 			return errors.New("newKey exists")
